@@ -19,6 +19,8 @@ import (
 	"sort"
 	"strings"
 	"time"
+	"unicode"
+	"unicode/utf8"
 
 	"verif/engine/lib"
 	"verif/engine/ux"
@@ -104,6 +106,8 @@ func docs() []doc {
 		{"abc", "abcd", "item", "items"},
 		{"a_b", "aB", "x1", "x10"},
 		{"zeta", "Alpha2", "Zed", "able"},
+		// identifiers whose first letter is not ASCII
+		{"ölstand", "émission", "größe", "ñu"},
 	} {
 		for _, t := range []string{"integer", "ref"} {
 			mk := func(n string) propT {
@@ -190,7 +194,8 @@ func title(s string) string {
 	if s == "" {
 		return s
 	}
-	return strings.ToUpper(s[:1]) + s[1:]
+	r, n := utf8.DecodeRuneInString(s)
+	return string(unicode.ToUpper(r)) + s[n:]
 }
 
 func goType(p propT) string {
@@ -400,7 +405,7 @@ func main() {
 		},
 		Rule: "every schema document with 0-2 objects (alpha, beta) x 0-2 properties each x type ids {integer, float, string, bool, ref, list} (1893 documents) x argument forms {no ignore argument, ignore 'beta', ignore a non-existent object}; for each, every iteration order of every map the generator ranges over (all permutations), once in an empty directory and once in a directory that still holds an older, longer output file; non-trivial = distinct (document, argument form) pairs; evaluations = generator executions",
 		Assumptions: []string{
-			"object and property names are valid lower-case identifiers; the expected identifier is the name with its first letter upper-cased",
+			"object and property names are valid identifiers (ASCII, and a few starting with a non-ASCII letter); the expected identifier is the name with its first letter upper-cased",
 			"gen.go is compiled from the working tree with `range` over maps routed through the map-order seam and main renamed; nothing else is changed",
 		},
 	})
